@@ -13,6 +13,7 @@ from ..engine import AnalysisError, dotted, iter_stmts, norm, walk_expr, const_s
 from ..flow import Walker
 from ..prov import Prov
 from ..report import Finding
+from ..sizealg import Poly
 
 LEVEL_TEXT = (
     "Static override resolution (C3 MRO over the parsed classes) plus a DIRTY/SYNCED typestate walk of every "
@@ -458,6 +459,10 @@ def run(ctx):
     ctx.rule('R-LAYGUARD', 'guard before the VGLVLS store of sliceDimensions is true for every selectable layer (size algebra)')
     ctx.rule('R-LAYEDGES', 'edges = VGLVLS[lidx] + VGLVLS[lidx[-1] + 1]')
     sfn = io.func('ioapi_base.sliceDimensions')
+    ctx.rule('R-GEOHANDLERS', 'the metadata handlers of sliceDimensions run whenever their dimension is selected (shared with C11)')
+    _h = c11.find_handlers(sfn)
+    c11.handler_guard_rules(ctx, sfn, _h, c11.key_names(sfn))
+    ctx.ok('R-GEOHANDLERS', 'guards', 'src/PseudoNetCDF/%s ioapi_base.sliceDimensions' % IO, '%d handlers examined for truthiness / elif guards' % len(_h))
     c11.lay_rules(ctx, sfn, c11.find_handlers(sfn).get('LAY'), 'src/PseudoNetCDF/%s ioapi_base.sliceDimensions' % IO)
     # ---- R-LISTDIMS: a name stays in VAR-LIST only with one of the standard dimension tuples (finite case analysis of the predicate)
     from .. import consteval
@@ -543,6 +548,74 @@ def run(ctx):
         else:
             ctx.violation(Finding('R-NEWEDGES', IO, 'ioapi_base.interpSigma', st, 'the stored level edges derive from %s, not (only) from the requested edges: after interpolating to '
                                   'another number of layers VGLVLS no longer has NLAYS + 1 entries' % sorted(o)))
+    # ---- R-VGLEN: a layer operation stores one more edge than it produced layers (size algebra on the stored expression)
+    ctx.rule('R-VGLEN', 'applyAlongDimensions stores NLAYS + 1 level edges for a result of any number of layers')
+    aad = io.func('ioapi_base.applyAlongDimensions')
+    waad = '%s ioapi_base.applyAlongDimensions' % where
+    ah = c11.find_handlers(aad).get('LAY') if c11.key_names(aad) or True else None
+    lay_if = [st for st in iter_stmts(aad.body) if isinstance(st, ast.If) and 'LAY' in c11.key_tests(st.test, c11.key_names(aad))]
+    if not lay_if:
+        ctx.violation(Finding('R-VGLEN', IO, 'ioapi_base.applyAlongDimensions', 'LAY handler', 'no branch re-derives VGLVLS when LAY is reduced', lineno=aad.lineno))
+    else:
+        c11.handler_guard_rules(ctx, aad, {'LAY': lay_if[0]}, c11.key_names(aad))
+        # the guard may not depend on the kind of reducer: every reducer changes the layer structure
+        kindtests = [c for c in ast.walk(lay_if[0].test) if isinstance(c, ast.Call) and dotted(c.func) in ('isinstance', 'callable', 'type')]
+        if kindtests:
+            ctx.violation(Finding('R-VGLEN', IO, 'ioapi_base.applyAlongDimensions', lay_if[0], 'VGLVLS is re-derived only for some kinds of layer reducer (%s): for the others NLAYS shrinks with the LAY dimension '
+                                  'while VGLVLS keeps all source edges' % norm(kindtests[0])[:50]), oid='kind guard')
+        vst = [s2 for s2 in iter_stmts(lay_if[0].body) if isinstance(s2, ast.Assign) and norm(s2.targets[0]) == 'outf.VGLVLS']
+        if not vst:
+            ctx.violation(Finding('R-VGLEN', IO, 'ioapi_base.applyAlongDimensions', lay_if[0], 'the LAY handler does not store VGLVLS'), oid='store')
+        for st in vst:
+            e = st.value
+            while isinstance(e, ast.Call) and isinstance(e.func, ast.Attribute) and e.func.attr in ('view', 'astype', 'copy'):
+                e = e.func.value
+
+            def piece_size(x):
+                # A[:, c] -> k ;  A[i, c] -> 1  (A: per-layer bounds table of the result)
+                if isinstance(x, ast.Subscript) and isinstance(x.slice, ast.Tuple) and len(x.slice.elts) == 2:
+                    a0 = x.slice.elts[0]
+                    if isinstance(a0, ast.Slice) and a0.lower is None and a0.upper is None and a0.step is None:
+                        return Poly.atom('k')
+                    if isinstance(a0, (ast.Constant, ast.UnaryOp)):
+                        return Poly.const(1)
+                return None
+            if isinstance(e, ast.Call) and (dotted(e.func) or '').split('.')[-1] == 'append' and len(e.args) == 2:
+                a, b = piece_size(e.args[0]), piece_size(e.args[1])
+                if a is None or b is None:
+                    ctx.undec('R-VGLEN', norm(st)[:50], waad, 'pieces of the stored edge array not understood')
+                elif a + b == Poly.atom('k') + 1:
+                    ctx.ok('R-VGLEN', norm(st)[:50], waad, 'k lower edges + the last upper edge = k + 1 entries')
+                else:
+                    ctx.violation(Finding('R-VGLEN', IO, 'ioapi_base.applyAlongDimensions', st, 'for a result of k layers %s entries are stored as VGLVLS instead of k + 1: coherent only for k = 1 '
+                                          '(a reducer that keeps 2 of 4 layers yields 4 edges [1, .9, .9, .7])' % (a + b)))
+            else:
+                ctx.undec('R-VGLEN', norm(st)[:50], waad, 'stored edge expression not in the append(lower edges, upper edge) form')
+    # the registered writer: level edges synthesised for a source without VGLVLS number (LAY length) + 1
+    from ..sizealg import to_poly as _tp10
+    if io.has_func('ncf2ioapi'):
+        wfn10 = io.func('ncf2ioapi')
+        wio = '%s ncf2ioapi' % where
+        layc = [c for c in ast.walk(wfn10) if isinstance(c, ast.Call) and isinstance(c.func, ast.Attribute) and c.func.attr == 'createDimension' and len(c.args) == 2
+                and const_str(c.args[0]) == 'LAY']
+        syn = [s2 for s2 in iter_stmts(wfn10.body) if isinstance(s2, ast.Assign) and norm(s2.targets[0]).endswith('.VGLVLS') and isinstance(s2.value, ast.Call)
+               and (dotted(s2.value.func) or '').split('.')[-1] in ('arange', 'linspace', 'zeros', 'ones') and s2.value.args]
+        for st in syn:
+            if not layc:
+                ctx.undec('R-VGLEN', norm(st)[:50], wio, 'LAY dimension of the output not created in a recognised form')
+                continue
+            try:
+                nlay = _tp10(layc[0].args[1], {})
+                fnm = (dotted(st.value.func) or '').split('.')[-1]
+                cnt = _tp10(st.value.args[2] if fnm == 'linspace' and len(st.value.args) > 2 else st.value.args[0], {})
+            except Exception:
+                ctx.undec('R-VGLEN', norm(st)[:50], wio, 'count expression not polynomial')
+                continue
+            if cnt == nlay + 1:
+                ctx.ok('R-VGLEN', norm(st)[:50], wio, '%s entries for a LAY dimension of %s' % (cnt, nlay))
+            else:
+                ctx.violation(Finding('R-VGLEN', IO, 'ncf2ioapi', st, 'the level edges synthesised for a source without VGLVLS have %s entries but the LAY dimension is created with %s: '
+                                      'the written file does not have NLAYS + 1 edges' % (cnt, nlay)))
     # ---- R-COUNTATTR
     for attr, dim in (('NLAYS', 'LAY'), ('NCOLS', 'COL'), ('NROWS', 'ROW')):
         want = "self.%s = len(self.dimensions['%s'])" % (attr, dim)
